@@ -781,6 +781,25 @@ def replay_file(path):
         print((p.stdout + p.stderr).strip())
         return 1 if p.returncode != 0 else 0
     if 'concrete_vals' not in rec:
+        ob = rec.get('obligation') or ''
+        if ob.startswith('v:'):
+            # a failed proof obligation without an input: re-generate the unit from the CURRENT tree and re-check it
+            _, unit, w, fname = ob.split(':', 3)
+            width = int(w[1:])
+            try:
+                vpath, _meta, _hits = vunits.generate(unit, width, os.path.join(BUILD, 'vx'))
+                r = vunits.run_verus(vpath)
+            except Exception as e:
+                print('could not re-run unit %s: %s' % (unit, e))
+                return 2
+            f = (r.get('funcs') or {}).get(fname)
+            if f is None:
+                print('obligation %s is not produced by the current tree (%s)' % (ob, r.get('status')))
+                return 2
+            print('obligation %s on the current tree: %s' % (ob, 'DISCHARGED' if f['success'] else 'FAILS (reproduced)'))
+            if not f['success']:
+                print((r.get('stderr') or '')[-3000:])
+            return 0 if f['success'] else 1
         print('replay file carries no concrete input (verifier output only):')
         print(json.dumps(rec.get('verifier_output') or rec.get('failed'), indent=1)[:3000])
         return 2
